@@ -19,6 +19,7 @@ const (
 	stMalformed = 2 // member present, not well-formed XML (sheet/slide only)
 	stDangling  = 3 // declared entry whose id has no relationship / manifest item
 	stWrongKind = 4 // relationship resolves to an existing member of another kind
+	stRepeat    = 5 // epub: a spine entry that lists a resource an EARLIER spine entry already lists (repeats.go)
 )
 
 type part struct {
@@ -38,6 +39,11 @@ type part struct {
 	NotesTok  string
 	NotesName string // ZIP member name of the notes part
 	NotesRef  string // Target exactly as written in the slide's relationship part
+
+	// epub, State == stRepeat: how the entry reaches the resource again (same-idref |
+	// same-href | spelling-pct | spelling-dot | spelling-dotdot) and whether it stands
+	// right behind the entry it repeats
+	RepeatWay string
 }
 
 // mdoc is the harness's record of what it wrote into one member; it becomes
